@@ -220,10 +220,11 @@ func (s *memoryStore) RemoveNode(nodeID store.NodeID) error {
 // empty list, if none are available.
 func (s *memoryStore) ActiveHosts(kind string, limit int) ([]store.Node, error) {
 	seenSince := time.Now().Add(-store.ExpireInterval)
-	r := make([]store.Node, 0, limit)
 
 	s.mu.Lock()
 	defer s.mu.Unlock()
+	// Never allocate by the caller's limit: it comes straight from a request.
+	r := []store.Node{}
 	// TODO: Do something other than random, such as by availability?
 	for _, n := range s.nodes {
 		// Ranging over a map is implicitly random, so
